@@ -274,6 +274,19 @@ def run_lines(exe, args, lines, timeout=600, env=None):
     return p.returncode, p.stdout.decode("latin-1").split("\n"), p.stderr.decode("latin-1")
 
 
+def err_digest(err, limit=2600):
+    """what matters of a crashed driver's stderr: the sanitizer's ERROR line, the first frames and
+    the SUMMARY line (the tail of an ASan report is only the shadow-byte legend)"""
+    m = re.search(r"(?m)^.*(ERROR: \w*Sanitizer|runtime error:|Assertion|==\d+==ERROR).*$", err)
+    sm = re.search(r"(?m)^SUMMARY: .*$", err)
+    if m:
+        body = err[m.start():m.start() + limit]
+        if sm and sm.group(0) not in body:
+            body += "\n...\n" + sm.group(0)
+        return body
+    return err[-limit:]
+
+
 def run_lines_robust(exe, lines, timeout=900, env=None, max_restarts=50):
     """Like run_lines, but survives a crash of the driver: the crashing case gets the result
     "CRASH rc=<n>" and the remaining cases are run in a fresh process.
@@ -300,7 +313,7 @@ def run_lines_robust(exe, lines, timeout=900, env=None, max_restarts=50):
         idx = start + done
         if idx < len(lines):
             outs.append("CRASH rc=%d" % rc)
-            crashes.append((idx, rc, err[-2000:]))
+            crashes.append((idx, rc, err_digest(err)))
         start = idx + 1
     while len(outs) < len(lines):
         outs.append("<not run>")
